@@ -32,7 +32,8 @@ CONFIG = {
                    'transitivity.'),
     'level_note': ('Trusted base: neutral.tree_of / node_ids. Within one '
                    'logic; atom names are non-reserved identifiers.'),
-    'deciding': ['c11.eq', 'c11.hash', 'c11.laws', 'c11.bool', 'c11.clone'],
+    'deciding': ['c11.eq', 'c11.hash', 'c11.laws', 'c11.bool', 'c11.clone',
+                 'c11.routes'],
     'shards': {'quick': 16, 'thorough': 16},
     'hashseeds': {'quick': 2, 'thorough': 4},
     'min_evals': {'quick': {'c11.eq': 300000, 'c11.hash': 20000,
@@ -41,7 +42,7 @@ CONFIG = {
                   'thorough': {'c11.eq': 5000000}},
     'must_sig': ['eq:same_tree', 'eq:different_tree', 'pair:near_miss',
                  'logic:PL', 'logic:LTL', 'logic:CTLS', 'logic:CTL',
-                 'clone:deep'],
+                 'clone:deep', 'routes:7'],
     'rule': ('cases = ordered pairs (f, g) of formula objects of one logic; '
              'pool per logic: all formulas of depth <=1 over {p,q,true,'
              'false}, a seeded sample of depth-2 formulas, near-miss '
@@ -184,6 +185,74 @@ def judge_clone(logic, f, tf):
                           'independent', note='aliasing')
 
 
+_parsers = {}
+
+
+def routes(logic, t):
+    """The same tree obtained through every construction route: constructors
+    with wrapped / raw leaves, clone(), the parser, cast_to from and to a
+    neighbouring language."""
+    from .. import mcwork
+    L = lang(logic)
+    out = []
+    for raw in (False, True):
+        try:
+            out.append(('build raw=%s' % raw, build(L, t, raw_leaves=raw)))
+        except Exception:
+            pass
+    if not out:
+        return out
+    f = out[0][1]
+    try:
+        out.append(('clone', f.clone()))
+        out.append(('clone of clone', f.clone().clone()))
+    except Exception:
+        pass
+    try:
+        if logic not in _parsers:
+            _parsers[logic] = L.Parser()
+        txt = mcwork.text_of('CTLS' if logic == 'CTL' else logic, t)
+        out.append(('parser', _parsers[logic](txt)))
+    except Exception:
+        pass
+    others = {'PL': ['CTLS', 'CTL', 'LTL'], 'CTL': ['CTLS'],
+              'LTL': ['CTLS'], 'CTLS': ['CTL', 'LTL']}[logic]
+    for o in others:
+        try:
+            g = build(lang(o), t)
+            out.append(('cast from ' + o, g.cast_to(L)))
+            out.append(('cast to %s and back' % o,
+                        f.cast_to(lang(o)).cast_to(L)))
+        except Exception:
+            pass
+    return out
+
+
+def judge_routes(logic, t):
+    rs = routes(logic, t)
+    for i in range(len(rs)):
+        for j in range(len(rs)):
+            LOG.hit('c11.routes')
+            (n1, a), (n2, b) = rs[i], rs[j]
+            ok = False
+            try:
+                ok = (a == b) and (b == a) and not (a != b) and \
+                    hash(a) == hash(b) and len({a, b}) == 1 and \
+                    {a: 1}.get(b) == 1
+            except Exception:
+                ok = False
+            if not ok:
+                LOG.violation('c11.hash' if a == b else 'c11.eq', PROP,
+                              {'logic': logic, 'f': t, 'shown': show(t),
+                               'routes': [n1, n2]},
+                              {'a==b': a == b, 'hash_equal':
+                               hash(a) == hash(b)}, 'equal, one key',
+                              note='the same tree built through two routes '
+                                   '(%s / %s) is not one key' % (n1, n2))
+    if len(rs) >= 4:
+        LOG.sig['routes:%d' % min(len(rs), 8)] += 1
+
+
 def bool_checks(logic):
     L = lang(logic)
     for b in (True, False):
@@ -241,6 +310,8 @@ def run(ctx):
             f, tf = objs[a]
             judge_clone(logic, f, tf)
             judge_clone(logic, copies[a][0], tf)
+            if a % 2 == 0:
+                judge_routes(logic, tf)
             judge_pair(logic, f, tf, copies[a][0], copies[a][1], True)
             judge_pair(logic, f, tf, f, tf, True)          # reflexive
             for b in range(n):
@@ -287,6 +358,7 @@ def replay(ctx, rep):
     for raw_f in (False, True):
         f = build(L, tf, raw_leaves=raw_f)
         judge_clone(logic, f, tf)
+        judge_routes(logic, tf)
         judge_pair(logic, f, tf, f.clone(), tf, True)
         for key in ('g', 'h'):
             if key in c:
